@@ -16,7 +16,7 @@ import (
 func runOne(t *testing.T, c *Case, src, sched *choice.Source, out *wproto.Out, id int) {
 	out.Begin(id)
 	out.SetOnStuck(func() {
-		c.Tape, c.Sched = src.Tape(), sched.Tape()
+		c.Tape, c.Sched, c.Pol = src.Tape(), sched.Tape(), sched.AuxTape()
 		out.Finding(id, "livelock|never-returned", "livelock", "the run exceeded its scheduler step budget and, left to run freely, still had not returned three seconds later: an endless loop", c)
 		out.End(id, []string{"livelock|never-returned"})
 		out.Count("evaluations", 1)
@@ -27,7 +27,7 @@ func runOne(t *testing.T, c *Case, src, sched *choice.Source, out *wproto.Out, i
 	func() {
 		defer func() {
 			if r := recover(); r != nil {
-				c.Tape, c.Sched = src.Tape(), sched.Tape()
+				c.Tape, c.Sched, c.Pol = src.Tape(), sched.Tape(), sched.AuxTape()
 				msg := fmt.Sprint(r)
 				cl := []byte(msg)
 				for i, ch := range cl {
@@ -72,6 +72,11 @@ func runOne(t *testing.T, c *Case, src, sched *choice.Source, out *wproto.Out, i
 		out.Sample(map[string]any{"case": id, "kind": c.Kind, "what": st.Desc}, 12)
 	}
 	out.Remember(c)
+	simsched.FlushTotals(out.Count, func(name string, n int64) {
+		if n > out.Counters[name] {
+			out.Counters[name] = n
+		}
+	})
 	out.Tick(256)
 }
 
@@ -106,7 +111,7 @@ func TestWorker(t *testing.T) {
 				runOne(t, &c, choice.New(c.Seed, fmt.Sprint("c09-ops-", c.Index)), choice.New(c.Seed, fmt.Sprint("c09-sched-", c.Index)), out, i)
 				continue
 			}
-			runOne(t, &c, choice.Replay(c.Tape), choice.Replay(c.Sched), out, i)
+			runOne(t, &c, choice.Replay(c.Tape), choice.ReplayAux(c.Sched, c.Pol), out, i)
 		}
 		out.Finish("done", len(job.Cases))
 	case "dump":
